@@ -302,6 +302,35 @@ def check(ctx, rep):
                 rep.bad("R-EQ", "R-EQ:" + key, where("hash"), "Q1: %s::hash feeds %s, which eq never consults: two values that are equal can hash differently" % (short, sorted({x.split("::")[-1] for x in extra})))
             else:
                 rep.ok("R-EQ", key, where("hash"), "Q1: hash applies no accessor that eq does not apply (instant accessors of a timestamp aside)")
+        # Q2d a hand-written cmp / partial_cmp next to a *derived* eq (plain equality of the fields): the order must look at the fields
+        # themselves - an order taken on a coarser projection (milliseconds of a time with nanoseconds, a lower-cased name) says
+        # Equal for values that are not equal. Every comparison in it compares the fields directly; no accessor, no arithmetic
+        derived_eq = "eq" not in hand and ms.get("eq", (None, False))[1] if "eq" in ms else False
+        if derived_eq:
+            for m in ("cmp", "partial_cmp"):
+                if m not in hand:
+                    continue
+                hb = hand[m]
+                coarse = []
+                for b2 in [hb] + [prog.bodies[c] for c in prog.closures_of.get(hb.id, [])]:
+                    for bi2, t in b2.calls():
+                        nm = strip_generics(mir.callee_name(t) or "")
+                        last = nm.split("::")[-1]
+                        if re.search(r" as std::(cmp::(PartialEq|Eq|PartialOrd|Ord)|ops::Deref|convert::AsRef|borrow::Borrow|clone::Clone)>::", nm) or last in ("cmp", "partial_cmp", "eq", "ne", "deref", "as_ref", "then", "then_with", "map", "unwrap_or", "is_some", "is_none",
+                                                                                                                                                                           "keys", "values", "iter", "into_iter", "len", "is_empty", "zip", "next"):
+                            continue  # comparisons, plumbing, and the views of a collection that together are its whole content
+                        if nm.startswith(("std::option::", "std::cmp::", "core::cmp::", "std::ops::function", "core::ops::function")):
+                            continue
+                        coarse.append(last)
+                    for blk in b2.blocks:
+                        for st in blk["stmts"]:
+                            if st["k"] == "assign" and st["rv"]["k"] == "binop" and st["rv"]["op"].replace("WithOverflow", "") in ("Add", "Sub", "Mul", "Div", "Rem", "Shr", "Shl", "BitAnd"):
+                                coarse.append(st["rv"]["op"])
+                key = "%s:Q2d:%s:orders-the-fields-themselves" % (short, m)
+                if coarse:
+                    rep.bad("R-EQ", "R-EQ:" + key, where(m), "Q2: %s derives == (field equality) but %s orders by a computed projection (%s): it answers Equal for values that == tells apart" % (short, m, sorted(set(coarse))[:4]))
+                else:
+                    rep.ok("R-EQ", key, where(m), "Q2: %s compares the fields directly, like the derived ==" % m)
         # Q2c hand-written eq next to a hand-written / derived cmp on a single-field wrapper: eq must be plain field equality
         if "eq" in hand and "cmp" in ms:
             extra = [nm for k, nm, txt in ops["eq"] if k == "call" and nm.split("::")[-1] not in ("eq", "ne", "deref", "as_ref", "to_bits", "borrow", "clone")]
